@@ -3,6 +3,7 @@ package props
 import (
 	"fmt"
 	"reflect"
+	"strings"
 
 	"verifsim/engine"
 	"verifsim/world"
@@ -82,7 +83,7 @@ func (t *taskState) unmarshalOp(i int, po *prepOp) {
 			// through the same instance, into the twin type without the option
 			twin = reflect.New(typeInfo(po.ti.Twin).T)
 			terr := p.Unmarshal(in, twin.Interface())
-			if errText(terr) != errText(err) {
+			if twinErrText(terr) != errText(err) {
 				t.fail(i, po, "error-mismatch", fmt.Sprintf("with interning the decode gives error %q, without %q", errText(err), errText(terr)))
 			} else if err == nil {
 				if ok, path := world.DiffInterned(out.Elem(), twin.Elem()); !ok {
@@ -238,7 +239,7 @@ func (t *taskState) reuseDecodeTwin(i int, po *prepOp, in []byte) {
 	}
 	err1 := p.Unmarshal(in, tgt.Interface())
 	err2 := p.Unmarshal(in, twin.Interface())
-	if errText(err1) != errText(err2) {
+	if errText(err1) != twinErrText(err2) {
 		t.fail(i, po, "error-mismatch", fmt.Sprintf("with interning the decode gives error %q, without %q", errText(err1), errText(err2)))
 	}
 	if err1 != nil || err2 != nil {
@@ -502,4 +503,10 @@ func min(a, b int) int {
 		return a
 	}
 	return b
+}
+
+// twinErrText is the error text of a decode into a twin type with the type
+// names mapped back (SymTwin -> Sym): error texts name the struct types.
+func twinErrText(err error) string {
+	return strings.ReplaceAll(errText(err), "Twin", "")
 }
